@@ -198,13 +198,25 @@ SAME_LINE_RULES = {"default-gap", "comment-pad", "before-comma", "after-comma", 
                    "before-closer", "bracket-continuation-indent", "before-bang"}
 
 
+INERT_RULES = {"trailing-blank", "blank-lines-removed", "eof-newlines", "blank-line-content", "comment-indent"}
+
+
 def parser_blank_sensitivity(sig, det):
-    """True when every necessary edit replaces one non-empty run of blanks by another between two
-    tokens of one line, outside macro bodies / strings / f-strings: if that changes xonsh's tree the
-    parser is at fault (words are separated by blanks of any width), not the formatter."""
+    """True when every necessary edit is one that cannot matter under any reading of xonsh's syntax,
+    outside macro bodies / strings / f-strings: a non-empty run of blanks between two tokens of a line
+    replaced by another, blanks removed at the end of a line, blank lines removed, a comment-only line
+    re-indented.  If that changes xonsh's tree the parser is at fault, not the formatter."""
     if not sig:
         return False
-    return all(rule in SAME_LINE_RULES and shape == "respace" and ctx in ("subproc", "python") for rule, shape, ctx in sig)
+    for rule, shape, ctx in sig:
+        if ctx not in ("subproc", "python"):
+            return False
+        if rule in SAME_LINE_RULES and shape == "respace":
+            continue
+        if rule in INERT_RULES:
+            continue
+        return False
+    return True
 
 
 def leak(rnd, fid, open_ids, one_in=10):
